@@ -30,17 +30,38 @@ class _Sink(logging.Handler):
 
 
 def with_switches(o, sw):
+    """The caller's dictionary with the option-spelled switches of `sw` added.  sw["spell"][which] = [value, templated]:
+    a switch key may be PRESENT with the value False (then it switches nothing), and its value may be a template that
+    refers to another key of the dictionary (switch values are option values like any other)."""
     o = copy.deepcopy(o)
     lab = {}
+    spell = sw.get("spell", {})
+
+    def val(which):
+        v, templated = spell.get(which, [True, False])
+        if templated:
+            o.setdefault("SWV", {})[which] = v
+            return "{SWV." + which + "}"
+        return v
+
     if sw["cache"].startswith("opt:"):
-        lab.setdefault("CACHE", {})[sw["cache"].split(":")[1]] = True
+        lab.setdefault("CACHE", {})[sw["cache"].split(":")[1]] = val("cache")
     if sw["effects"] == "opt":
-        lab.setdefault("EFFECTS", {})["DISABLED"] = True
+        lab.setdefault("EFFECTS", {})["DISABLED"] = val("effects")
     if sw["logging"] == "opt":
-        lab.setdefault("LOGGING", {})["DISABLED"] = True
+        lab.setdefault("LOGGING", {})["DISABLED"] = val("logging")
     if lab:
         o["LABREA"] = lab
     return o
+
+
+def effective(sw):
+    """The switch vector as it acts: an option-spelled switch whose value is False is 'on'."""
+    out = dict(sw)
+    for which in ("cache", "effects", "logging"):
+        if (sw[which] == "opt" or sw[which].startswith("opt:")) and not sw.get("spell", {}).get(which, [True, False])[0]:
+            out[which] = "on"
+    return out
 
 
 def multiset(delta, kind):
@@ -95,6 +116,8 @@ class C16(HistoryProperty):
         for op in ops:
             op["sw"] = {"cache": rng.choice(CACHE_SW), "effects": rng.choice(EFFECT_SW), "logging": rng.choice(LOG_SW),
                         "nest": rng.random() < 0.5, "toggle_ds": rng.choice(names)}
+            if rng.random() < 0.3:
+                op["sw"]["spell"] = {w: [rng.random() < 0.6, rng.random() < 0.6] for w in ("cache", "effects", "logging") if rng.random() < 0.6}
         # the caller keeps ONE options dictionary and edits it in place between evaluations (in a third of the histories)
         return {"cfg": cfg, "spec": spec, "ops": ops, "nocache_variant": variant, "inplace": rng.random() < 0.33}
 
@@ -144,7 +167,7 @@ class C16(HistoryProperty):
                 shared_o = {}
                 with lrt.handle(LogRequest, rec):
                     for i, op in enumerate(case["ops"]):
-                        sw = op["sw"]
+                        sw = effective(op["sw"])
                         vectors.add((sw["cache"], sw["effects"], sw["logging"]))
                         cache_off = sw["cache"] != "on" or bool(case.get("nocache_variant"))
                         # per-dataset toggle (a structural op on the warm world only)
@@ -153,7 +176,7 @@ class C16(HistoryProperty):
                             toggled = self._family(spec, sw["toggle_ds"])
                             for nid in toggled:
                                 w.prog.obj[nid].disable_effects()
-                        o = with_switches(op["o"], sw)
+                        o = with_switches(op["o"], op["sw"])
                         ctxs = []
                         if sw["cache"] == "ctx":
                             ctxs.append(labrea.cache.disabled)
